@@ -13,6 +13,7 @@ def handle (line : String) : String :=
   | "NDIST" :: rest => Dist.ndistLine rest
   | "HASH" :: rest => Hash.hashLine rest
   | "DIFF" :: rest => Diff.diffLine rest
+  | "DIFFX" :: rest => Diff.diffxLine rest
   | "SAVEFS" :: rest => SaveFS.saveLine Wire.decStr Wire.encStr rest
   | _ => "bad-op"
 
